@@ -7,12 +7,18 @@
 (*   inv    {t, a} / res {t, r}     overlapping calls: the effect is an    *)
 (*                                  internal step between the two          *)
 (*   final  {obs}                   quiescent observation after overlap    *)
+(*   run    {a, n, dk, km, dv, ko}  n sequential calls of one method as one *)
+(*                                  event: call i (from 0) has key          *)
+(*                                  a.k + ((ko + dk*i) mod km)  (km = 0:    *)
+(*                                  a.k + ko + dk*i), value a.v + dv*i;     *)
+(*                                  applied RunChunk calls per step (rep    *)
+(*                                  counts the calls done)                  *)
 EXTENDS LRU, Json, IOUtils
 
 TraceLog == ndJsonDeserialize(IOEnv.VERIF_TRACE)
 
-VARIABLES l, pend
-tvars == <<allvars, l, pend>>
+VARIABLES l, pend, rep
+tvars == <<allvars, l, pend, rep>>
 
 Idle == [st |-> "idle"]
 
@@ -22,7 +28,7 @@ ObsOK(o, ord, vl, si, c, ev) ==
   /\ o.len = Len(ord) /\ o.size = si /\ o.cap = c /\ o.ev = ev
 
 TraceInit ==
-  /\ l = 1 /\ pend = <<>>
+  /\ l = 1 /\ pend = <<>> /\ rep = 0
   /\ InitWith(0, TRUE)
 
 TReset(e) ==
@@ -56,8 +62,33 @@ TFinal(e) ==
   /\ ObsOK(e.obs, order, val, size, cap, evict)
   /\ UNCHANGED <<allvars, pend>>
 
+(* the i-th call of a run *)
+RunAct(e, i) ==
+  LET k == IF e.km > 0 THEN e.a.k + ((e.ko + e.dk * i) % e.km) ELSE e.a.k + e.ko + e.dk * i
+  IN IF e.a.op \in {"set", "setx", "setnx"}
+     THEN [op |-> e.a.op, k |-> k, v |-> e.a.v + e.dv * i, s |-> e.a.s]
+     ELSE [op |-> e.a.op, k |-> k]
+
+(* a run is applied RunChunk calls per step, through the methods as functions (LRU!FDo) *)
+RunChunk == 1000
+RECURSIVE FRun(_, _, _, _)
+FRun(s, e, i, j) == IF i >= j THEN s ELSE FRun(FDo(s, RunAct(e, i)), e, i + 1, j)
+
+TRun ==
+  /\ l <= Len(TraceLog)
+  /\ LET e == TraceLog[l] IN
+       /\ e.ev = "run" /\ rep < e.n
+       /\ e.a.op \in {"set", "setnx", "get"}     \* methods whose reply carries nothing / is dropped
+       /\ LET j == IF rep + RunChunk < e.n THEN rep + RunChunk ELSE e.n
+              t == FRun(FSt, e, rep, j)
+          IN /\ order' = t.order /\ val' = t.val /\ sz' = t.sz /\ size' = t.size /\ evict' = t.evict
+             /\ UNCHANGED <<cap, sized>>
+             /\ last' = RunAct(e, j - 1)
+             /\ IF j = e.n THEN l' = l + 1 /\ rep' = 0 ELSE l' = l /\ rep' = j
+  /\ UNCHANGED pend
+
 Consume ==
-  /\ l <= Len(TraceLog) /\ l' = l + 1
+  /\ l <= Len(TraceLog) /\ l' = l + 1 /\ rep = 0 /\ rep' = 0
   /\ LET e == TraceLog[l] IN
        CASE e.ev = "reset" -> TReset(e)
          [] e.ev = "call"  -> TCall(e)
@@ -71,9 +102,9 @@ Lin == \E t \in DOMAIN pend :
   /\ pend[t].st = "called"
   /\ Step(pend[t].a)
   /\ pend' = [pend EXCEPT ![t] = [st |-> "done", r |-> Reply(pend[t].a)]]
-  /\ UNCHANGED l
+  /\ UNCHANGED <<l, rep>>
 
-TraceNext == Consume \/ Lin
+TraceNext == Consume \/ Lin \/ TRun
 TraceSpec == TraceInit /\ [][TraceNext]_tvars
 
 (* high-water mark of l in TLC register 1 (needs -workers 1) *)
@@ -81,5 +112,5 @@ ASSUME TLCSet(1, 0)
 Mark == TLCSet(1, IF l > TLCGet(1) THEN l ELSE TLCGet(1))
 Accepted == PrintT(<<"MARK", TLCGet(1), Len(TraceLog)>>) /\ TLCGet(1) = Len(TraceLog) + 1
 
-TView == <<order, val, sz, size, cap, sized, evict, l, pend>>
+TView == <<order, val, sz, size, cap, sized, evict, l, pend, rep>>
 =============================================================================
